@@ -7,7 +7,7 @@ from props import rwcommon as rc
 ID = "C01"
 PROP_FILE = "props/C01.v"
 COQ_TARGETS = ["props/C01.v"]
-THEOREMS = ["C01_erase_sound", "C01_erase_any"]
+THEOREMS = ["C01_erase_sound", "C01_erase_any", "C01_rw_frag", "C01_rw_frag_certified"]
 TRUSTED_BASE = [
     "Coq 8.16.1 kernel, vm_compute for the per-program erasure certificates",
     "tools/impl/astexport.py (AST -> Coq term, interning, id canonicalisation), tools/translators/gen_pyast.py + gen_events.py",
@@ -168,6 +168,11 @@ def run(ctx, model_ok, deferred=False, only_deferred=False, n_quick=120, extra_c
     for c in cases:
         for e in c["events"]:
             hist[e] = hist.get(e, 0) + 1
+    ksyn = (0, 0)
+    if model_ok and ctx.prop == "C01":
+        # the Gallina model of the rewriter on the fragment (model/RwFrag.v, theorem C01_rw_frag) against the real rewriter
+        from props import rwfrag
+        ksyn = rwfrag.check(ctx, rng, 80 if ctx.tier == "quick" else 800)
     return {
         "evaluations": len(cases), "distinct_nontrivial": len({lib.digest(c) for c, im in zip(cases, impl) if im.get("handler_calls", 0) >= 3}),
         "rule": "generated programs (prelude with helper functions/classes + 2-4 generated statements: assignments, calls, loops with break/continue/else, "
@@ -179,7 +184,8 @@ def run(ctx, model_ok, deferred=False, only_deferred=False, n_quick=120, extra_c
         "distribution": {"event_subscription_histogram_top": dict(sorted(hist.items(), key=lambda x: -x[1])[:12]),
                          "programs_raising": sum(1 for im in impl if "exc" in im.get("plain", {})),
                          "certificates_checked": len(cert_rows), "certificates_ok": certs_ok,
-                         "rewritten_nodes_total": sum(im.get("out_nodes", 0) for im in impl)},
+                         "rewritten_nodes_total": sum(im.get("out_nodes", 0) for im in impl),
+                         "k_syn_fragment_programs": ksyn[0], "k_syn_tree_equal": ksyn[1]},
         "failures": failures, "extra": {"certificate_failures": len(certs_bad)},
     }
 
